@@ -39,6 +39,7 @@ fn main() {
           g_ggm::gen(seed, thorough, only, &mut out);
           // the exported key state: export / import between server instances at every point of a history
           g_pp::gen_c14(seed ^ 0x11, thorough, only, &mut out);
+          g_pp::gen_keystate(seed ^ 0x11, thorough, &mut out);
         }
         "C17" => g_wasm::gen_c17(seed, thorough, only, &mut out),
         "C18" => g_wasm::gen_c18(seed, thorough, only, &mut out),
@@ -52,7 +53,10 @@ fn main() {
         }
         "C12" => g_pp::gen_c12(seed, thorough, only, &mut out),
         "C13" => g_pp::gen_c13(seed, thorough, only, &mut out),
-        "C14" => g_pp::gen_c14(seed, thorough, only, &mut out),
+        "C14" => {
+          g_pp::gen_c14(seed, thorough, only, &mut out);
+          g_pp::gen_keystate(seed, thorough, &mut out);
+        }
         "C15" => {
           g_pp::gen_c15(seed, thorough, only, &mut out);
           g_pp::gen_json(seed, thorough, &mut out);
